@@ -49,7 +49,7 @@ def write_replay(pid, obname, clause, payload):
 
 
 def finding_matches(k, pid, obname, clause):
-    if k.get("property") != pid:
+    if k.get("property") != pid and pid not in k.get("also_properties", []):
         return False
     if not k.get("obligation") or k["obligation"] != obname:
         return False      # entries keyed by a bounded check never match an obligation
